@@ -37,3 +37,25 @@ package dnsutils
 //@   ensures ret(PackTCPBuffer, 0, 1) != nil ==> calls(Write) == 0 && err == ret(PackTCPBuffer, 0, 1)
 //@   ensures ret(PackTCPBuffer, 0, 1) == nil ==> calls(Write) == 1 && arg(Write, 0, 0) == c && arg(Write, 0, 1) == aftercall(PackTCPBuffer, 0, *ret(PackTCPBuffer, 0, 0))
 //@   ensures ret(PackTCPBuffer, 0, 1) == nil ==> calls(ReleaseBuf) == 1 && arg(ReleaseBuf, 0, 0) == ret(PackTCPBuffer, 0, 0)
+
+// ---------------------------------------------------------------------------
+// TTL helpers (C05, C15)
+//@ import dns "github.com/miekg/dns"
+
+//@ func GetMinimalTTL
+//@   nobody
+//@   log GetMinimalTTL
+//@   requires m != nil
+//@   ensures 0 <= result && result <= 4294967295
+
+//@ func SubtractTTL
+//@   nobody
+//@   log SubtractTTL
+//@   requires m != nil
+//@   modifies comp(dns.RR_Header.Ttl)
+
+//@ func SetTTL
+//@   nobody
+//@   log SetTTL
+//@   requires m != nil
+//@   modifies comp(dns.RR_Header.Ttl)
